@@ -257,3 +257,28 @@ def known_not_none(an: Analysis, fn: FunctionInfo, name: ast.Name, node: Node) -
         if isinstance(a, ast.Name) and a.id == name.id and same_name_value(fn, a, t, name, node):
             return True
     return False
+
+
+def def_types(an: Analysis, fn: FunctionInfo, name: ast.Name, node: Node):
+    """Union of the types of the definitions of *name* that can be live at *node* (after the guard-correlated pruning of
+    engine.defuse): sharper than the flow-sensitive join when the live definition is selected by a flag."""
+    from .defuse import _prune_correlated
+    from .types import ANY
+    rd = reaching_defs(fn)
+    ft = an.ft(fn)
+    defs = rd.reaching(node, name.id)
+    if len(defs) > 1:
+        defs = _prune_correlated(fn, rd, defs, node)
+    out = set()
+    for d in defs:
+        if d.kind == "param":
+            t = ft.type_at(node, name)
+        elif d.kind == "assign" and d.value is not None and d.node is not None:
+            # the value as typed where it is assigned (parameters narrowed by the branch the assignment sits in)
+            t = ft.type_after(d.node, d.value) if hasattr(ft, "type_after") else ft.type_at(d.node, d.value)
+        else:
+            return ANY
+        if t == ANY or not t:
+            return ANY
+        out |= set(t)
+    return frozenset(out) if out else ANY
